@@ -151,7 +151,8 @@ static const char *op_mname(int j) { return OPM[j]; }
 static void op_obs(spif_obj_t o, char *b, size_t n) { spif_objpair_t p = SPIF_OBJPAIR(o); snprintf(b, n, "key=%s value=%s", stext(p->key), stext(p->value)); }
 
 /* ------------------------------------------------------------------ tok */
-static const char *TKB[] = { "new()", "from_ptr(\"a b\")", "from_ptr(\"a b\")+eval", "from_ptr(\"a,b c\")+set_sep(\",\")+eval", "from_ptr(\"\")+eval", "from_ptr(\"b\")" };
+static const char *TKB[] = { "new()", "from_ptr(\"a b\")", "from_ptr(\"a b\")+eval", "from_ptr(\"a,b c\")+set_sep(\",\")+eval", "from_ptr(\"\")+eval", "from_ptr(\"b\")",
+                             "from_ptr(\"a b\")+eval+set_sep(\",\") (not evaluated again)", "from_ptr(\"a b\")+eval+set_src(\"x y z\") (not evaluated again)" };
 static spif_obj_t tk_build(int i)
 {
     spif_tok_t t;
@@ -161,6 +162,8 @@ static spif_obj_t tk_build(int i)
     case 2: t = spif_tok_new_from_ptr((spif_charptr_t) "a b"); spif_tok_eval(t); return SPIF_OBJ(t);
     case 3: t = spif_tok_new_from_ptr((spif_charptr_t) "a,b c"); spif_tok_set_sep(t, spif_str_new_from_ptr((spif_charptr_t) ",")); spif_tok_eval(t); return SPIF_OBJ(t);
     case 4: t = spif_tok_new_from_ptr((spif_charptr_t) ""); spif_tok_eval(t); return SPIF_OBJ(t);
+    case 6: t = spif_tok_new_from_ptr((spif_charptr_t) "a b"); spif_tok_eval(t); spif_tok_set_sep(t, spif_str_new_from_ptr((spif_charptr_t) ",")); return SPIF_OBJ(t);
+    case 7: t = spif_tok_new_from_ptr((spif_charptr_t) "a b"); spif_tok_eval(t); spif_tok_set_src(t, spif_str_new_from_ptr((spif_charptr_t) "x y z")); return SPIF_OBJ(t);
     default: return SPIF_OBJ(spif_tok_new_from_ptr((spif_charptr_t) "b"));
     }
 }
